@@ -28,22 +28,6 @@ def elems_wf(lst):
 
 def install(reg):
     reg.add(Contract(
-        "biobalm.space_utils.percolate_space", trusted=True,
-        params=[("network", TGraph), ("space", TSpace)], result_type=TSpace,
-        properties=("C11", "C02", "C04", "C06"),
-        ensures=[("is_perc", lambda c: c.result == T.Perc(net_of(c.network), c.space))],
-        note="wrapper around AEON Percolation.percolate_subspace; the renaming loop is not yet verified against the body",
-    ))
-    reg.add(Contract(
-        "biobalm.space_utils.space_unique_key", trusted=True,
-        params=[("space", TSpace), ("network", TNetObj)], result_type=TInt,
-        properties=("C02", "C04", "C20"),
-        may_raise={"IndexError": {"only_when": lambda c: z3.Not(T.dom_within(c.space, bn_net_of(c.network)))}},
-        raises={"IndexError": []},
-        ensures=[("is_key", lambda c: c.result == T.SKey(bn_net_of(c.network), c.space))],
-        note="base-4 digit key; body verification needs the bit-level lemma L10 (Lean)",
-    ))
-    reg.add(Contract(
         "biobalm.petri_net_translation.extract_source_variables", trusted=True,
         params=[("encoded_network", M.TPN)], result_type=LN,
         properties=("C02", "C09"),
